@@ -19,11 +19,11 @@ let c14_table : (string * (Z.t list -> Z.t list option)) list = Model.[
   "ext2sq", run_ext2sq; "ext4sq", run_ext4sq; "ext5sq", run_ext5sq;
   "const_w", run_const_w; "const_dth", run_const_dth ]
 
-let c01_table : (string * (Z.t list -> Z.t list option)) list = Model.[ "prog", run_prog ]
+let c01_table : (string * (Z.t list -> Z.t list option)) list = Model.[ "prog", run_prog; "plonkverify", run_plonkverify; "challenges", run_challenges ]
 
 let c16_table : (string * (Z.t list -> Z.t list option)) list = Model.[ "dedup", run_dedup ]
 
-let tables = [ "c14", c14_table; "c01", c01_table; "c16", c16_table ]
+let tables = [ "c14", c14_table; "c01", c01_table; "c16", c16_table; "plonk", c01_table ]
 
 let split_ws s = List.filter (fun x -> x <> "") (String.split_on_char ' ' s)
 
